@@ -59,12 +59,17 @@ class PackageLoader(BaseLoader):
             raise TemplateNotFoundError(template_name)
 
         # Add suffix self.ext if template name does not have a suffix.
-        if not template_path.suffix:
+        if template_path.name and not template_path.suffix:
             template_path = template_path.with_suffix(self.ext)
 
         for path in self.paths:
             source_path = path.joinpath(str(template_path))
-            if source_path.is_file():
+            try:
+                is_file = source_path.is_file()
+            except OSError:
+                # A name the file system can't represent, one that's too long, for example.
+                is_file = False
+            if is_file:
                 # MyPy seems to think source_path has `Any` type :(
                 return source_path  # type: ignore
 
